@@ -281,19 +281,23 @@ func cmdCheck(mode string, args []string) int {
 		vc, err := w.translate(j.fn, j.c)
 		if err != nil {
 			// Translation is a deterministic function of the source and the
-			// contract: a real error repeats. One retry keeps a transient
-			// internal failure (seen once on a cold machine, never reproduced)
-			// from being reported as a violation; the first error is kept.
+			// contract: a real error repeats. One retry guards against a
+			// transient internal failure; the first error is kept in evidence.
 			first := err
 			fmt.Fprintf(os.Stderr, "translate %s: %v (retrying once)\n", j.key, err)
 			vc, err = w.translate(j.fn, j.c)
 			if err != nil {
+				mu.Lock()
 				results = append(results, Result{Fn: j.key, Name: "contract/wellformed", Status: "refuted", Src: "contract can be evaluated against the current code", Detail: err.Error(), Expect: "unsat"})
+				mu.Unlock()
 				continue
 			}
 			retried = append(retried, fmt.Sprintf("%s: translation retried after: %v", j.key, first))
 		}
+		// (the solver goroutines started below append to results too)
+		mu.Lock()
 		results = append(results, Result{Fn: j.key, Name: "contract/wellformed", Status: "discharged", Src: "contract can be evaluated against the current code", Expect: "unsat", Solver: "translator"})
+		mu.Unlock()
 		vcs[j.key] = vc
 		wg.Add(1)
 		go func(vc *VC) {
